@@ -150,7 +150,7 @@ func (this *Hnsw) Load(r io.Reader, header bool) error {
 	var distance float32
 
 	uuidBuf := make([]byte, uuid.Size)
-	if _, err := r.Read(uuidBuf); err != nil {
+	if _, err := io.ReadFull(r, uuidBuf); err != nil {
 		return err
 	}
 	entrypointId, err := uuid.FromBytes(uuidBuf)
@@ -172,7 +172,7 @@ func (this *Hnsw) Load(r io.Reader, header bool) error {
 		verticesShard := this.vertices[i]
 
 		for i := 0; i < int(shardSize); i++ {
-			if _, err := r.Read(uuidBuf); err != nil {
+			if _, err := io.ReadFull(r, uuidBuf); err != nil {
 				return err
 			}
 			id, err := uuid.FromBytes(uuidBuf)
@@ -206,7 +206,7 @@ func (this *Hnsw) Load(r io.Reader, header bool) error {
 	// Load edges
 	for _, verticesShard := range this.vertices {
 		for i := 0; i < len(verticesShard); i++ {
-			if _, err := r.Read(uuidBuf); err != nil {
+			if _, err := io.ReadFull(r, uuidBuf); err != nil {
 				return err
 			}
 			id, err := uuid.FromBytes(uuidBuf)
@@ -220,7 +220,7 @@ func (this *Hnsw) Load(r io.Reader, header bool) error {
 					return err
 				}
 				for j := 0; j < int(numEdges); j++ {
-					if _, err := r.Read(uuidBuf); err != nil {
+					if _, err := io.ReadFull(r, uuidBuf); err != nil {
 						return err
 					}
 					neighborId, err := uuid.FromBytes(uuidBuf)
